@@ -40,7 +40,11 @@ Units == <<
   <<65>>,            \* 16 A
   <<49>>,            \* 17 1
   <<10>>,            \* 18 line feed
-  <<97, 0>>          \* 19 a U+0000
+  <<97, 0>>,         \* 19 a U+0000
+  <<65533>>,         \* 20 U+FFFD (an ordinary character, although decoders use it as an error marker)
+  <<65535>>,         \* 21 U+FFFF
+  <<55295>>,         \* 22 U+D7FF (last code unit below the surrogates)
+  <<57344>>          \* 23 U+E000 (first code unit above the surrogates)
 >>
 Names == DOMAIN Units
 
